@@ -1,6 +1,706 @@
-//! Binary family (stub)
-use crate::Entry;
-use vx::Ctx;
-pub fn entries() -> Vec<Entry> { vec![] }
-pub fn string_sweeps() -> Vec<crate::strings::Sweep> { vec![] }
-pub fn generate(_ctx: &Ctx) {}
+//! Binary family: packed state metadata, method digests, compressed revocation bitmaps and status lists,
+//! raw `from_json_slice` bytes. Every space below is a complete product / complete positional sweep.
+
+use crate::strings::{sw, Sweep};
+use crate::{bb, eb, es, st, Entry, In, Local, Out};
+use identity_core::common::{Object, Url};
+use identity_core::convert::{Base, BaseEncoding, FromJson, ToJson};
+use identity_credential::credential::{Credential, RevocationBitmapStatus};
+use identity_credential::revocation::status_list_2021::StatusList2021;
+use identity_credential::revocation::{RevocationBitmap, RevocationDocumentExt};
+use identity_credential::validator::{JwtCredentialValidatorUtils, StatusCheck};
+use identity_did::DIDUrl;
+use identity_document::document::CoreDocument;
+use identity_document::service::Service;
+use identity_iota_core::{IotaDID, IotaDocument, StateMetadataDocument, StateMetadataEncoding};
+use identity_storage::key_id_storage::MethodDigest;
+use once_cell::sync::Lazy;
+use std::collections::hash_map::DefaultHasher;
+use std::hash::{Hash, Hasher};
+use std::io::Write;
+use vx::{json, Ctx};
+
+const DATA_URL: &str = "data:application/octet-stream;base64,";
+
+// ------------------------------------------------------------------------------------------------ entries
+static ORIGINAL_DID: Lazy<IotaDID> = Lazy::new(|| IotaDID::parse(format!("did:iota:smr:{}", crate::strings::VALID_TAG)).unwrap());
+
+fn e_state_metadata_unpack(b: &[u8]) -> Out {
+  match StateMetadataDocument::unpack(b) {
+    Err(e) => match e {
+      identity_iota_core::Error::InvalidStateMetadata(_) => "rej:InvalidStateMetadata",
+      identity_iota_core::Error::InvalidDoc(_) => "rej:InvalidDoc",
+      identity_iota_core::Error::SerializationError(..) => "rej:SerializationError",
+      _ => "rej:other",
+    },
+    Ok(d) => {
+      st("Debug");
+      bb(format!("{d:?}"));
+      st("to_json");
+      bb(d.to_json().is_ok());
+      st("pack");
+      if let Ok(p) = d.clone().pack(StateMetadataEncoding::Json) {
+        st("pack>unpack");
+        bb(StateMetadataDocument::unpack(&p).is_ok());
+      }
+      st("into_iota_document");
+      match d.into_iota_document(&ORIGINAL_DID) {
+        Ok(doc) => {
+          crate::json::iota_document_accessors(&doc);
+          "accepted:iota-document"
+        }
+        Err(_) => "accepted:unpack-only",
+      }
+    }
+  }
+}
+
+fn e_method_digest_unpack(b: &[u8]) -> Out {
+  match MethodDigest::unpack(b.to_vec()) {
+    Err(_) => "rej",
+    Ok(d) => {
+      st("pack");
+      let p = d.pack();
+      st("pack>unpack");
+      bb(MethodDigest::unpack(p).is_ok());
+      st("Debug/Hash/Eq");
+      let mut h = DefaultHasher::new();
+      d.hash(&mut h);
+      bb((format!("{d:?}"), h.finish(), d == d.clone()));
+      "accepted"
+    }
+  }
+}
+
+static REV_ID: Lazy<DIDUrl> = Lazy::new(|| DIDUrl::parse("did:example:123#rev").unwrap());
+const PROBE_INDICES: [u32; 14] = [0, 1, 2, 5, 4095, 4096, 4097, 65534, 65535, 65536, 65537, 131071, u32::MAX - 1, u32::MAX];
+
+pub fn bitmap_accessors(bm: &RevocationBitmap, svc: &Service) {
+  st("len/is_empty");
+  bb((bm.len(), bm.is_empty()));
+  st("is_revoked");
+  for i in PROBE_INDICES {
+    bb(bm.is_revoked(i));
+  }
+  st("Debug/Clone/Eq");
+  bb((format!("{bm:?}").len(), bm.clone() == *bm));
+  st("to_service");
+  if let Ok(s2) = bm.to_service(REV_ID.clone()) {
+    st("to_service>try_from");
+    bb(RevocationBitmap::try_from(&s2).is_ok());
+  }
+  // every single revoke / unrevoke from the accepted state, then one cumulative run
+  for i in PROBE_INDICES {
+    let mut c = bm.clone();
+    st("revoke");
+    bb(c.revoke(i));
+    st("revoke>len/is_revoked/to_service");
+    bb((c.len(), c.is_revoked(i), c.to_service(REV_ID.clone()).is_ok()));
+    let mut c = bm.clone();
+    st("unrevoke");
+    bb(c.unrevoke(i));
+    st("unrevoke>len/is_revoked/to_service");
+    bb((c.len(), c.is_revoked(i), c.to_service(REV_ID.clone()).is_ok()));
+  }
+  let mut c = bm.clone();
+  st("unrevoke(all probes)");
+  for i in PROBE_INDICES {
+    bb(c.unrevoke(i));
+  }
+  st("unrevoke(all probes)>revoke(all probes)");
+  for i in PROBE_INDICES {
+    bb(c.revoke(i));
+  }
+  st("unrevoke/revoke(all probes)>to_service");
+  bb((c.len(), c.to_service(REV_ID.clone()).is_ok()));
+  // document level
+  st("CoreDocument(with service)");
+  let mut doc = CoreDocument::builder(Object::new()).id(REV_ID.did().clone()).service(svc.clone()).build().expect("document with one service");
+  st("CoreDocument::resolve_revocation_bitmap");
+  bb(doc.resolve_revocation_bitmap("#rev".into()).is_ok());
+  st("CoreDocument::revoke_credentials");
+  bb(doc.revoke_credentials("#rev", &[0, 65536, u32::MAX]).is_ok());
+  st("CoreDocument::unrevoke_credentials");
+  bb(doc.unrevoke_credentials("#rev", &PROBE_INDICES).is_ok());
+  st("CoreDocument::to_json");
+  bb(doc.to_json().is_ok());
+  // validator level
+  st("check_status");
+  let mut doc = CoreDocument::builder(Object::new()).id(REV_ID.did().clone()).service(svc.clone()).build().expect("document with one service");
+  for i in [0u32, 5, 65536, u32::MAX] {
+    let status = RevocationBitmapStatus::new(REV_ID.clone(), i);
+    let cred = status_credential(status.into());
+    bb(JwtCredentialValidatorUtils::check_status(&cred, std::slice::from_ref(&doc), StatusCheck::Strict).is_ok());
+  }
+  let _ = &mut doc;
+}
+
+pub fn status_credential(status: identity_credential::credential::Status) -> Credential {
+  use identity_credential::credential::{CredentialBuilder, Subject};
+  CredentialBuilder::default()
+    .id(Url::parse("https://example.edu/credentials/3732").unwrap())
+    .issuer(Url::parse("did:example:123").unwrap())
+    .type_("UniversityDegreeCredential")
+    .subject(Subject::with_id(Url::parse("did:example:subject").unwrap()))
+    .issuance_date(vx::fx::ts(vx::fx::NOW))
+    .status(status)
+    .build()
+    .expect("credential")
+}
+
+fn bitmap_from_endpoint_url(url: Url) -> Out {
+  let svc = match Service::builder(Object::new()).id(REV_ID.clone()).type_(RevocationBitmap::TYPE).service_endpoint(url).build() {
+    Ok(s) => s,
+    Err(_) => return "rej:service",
+  };
+  match RevocationBitmap::try_from(&svc) {
+    Err(_) => "rej",
+    Ok(bm) => {
+      bitmap_accessors(&bm, &svc);
+      "accepted"
+    }
+  }
+}
+
+/// input = the text after `data:application/octet-stream;base64,`
+fn e_bitmap_payload(s: &str) -> Out {
+  match Url::parse(format!("{DATA_URL}{s}")) {
+    Err(_) => "rej:url",
+    Ok(u) => bitmap_from_endpoint_url(u),
+  }
+}
+/// input = the whole endpoint URL
+fn e_bitmap_endpoint(s: &str) -> Out {
+  match Url::parse(s) {
+    Err(_) => "rej:url",
+    Ok(u) => bitmap_from_endpoint_url(u),
+  }
+}
+fn merge(a: Out, b: Out) -> Out {
+  if a.starts_with("acc") {
+    a
+  } else {
+    b
+  }
+}
+/// input = a zlib stream; wrapped both ways the decoder understands: Base64Url(stream) (only taken when it starts
+/// with `eJy`) and the legacy double encoding Base64(Base64Url(stream)).
+fn e_bitmap_zlib(b: &[u8]) -> Out {
+  let direct = BaseEncoding::encode(b, Base::Base64Url);
+  let legacy = BaseEncoding::encode(direct.as_bytes(), Base::Base64);
+  let a = e_bitmap_payload(&direct);
+  let c = e_bitmap_payload(&legacy);
+  merge(a, c)
+}
+pub fn zlib(b: &[u8]) -> Vec<u8> {
+  let mut e = vx::fx::zlib_encoder();
+  e.write_all(b).unwrap();
+  e.finish().unwrap()
+}
+pub fn gzip(b: &[u8]) -> Vec<u8> {
+  let mut e = vx::fx::gz_encoder();
+  e.write_all(b).unwrap();
+  e.finish().unwrap()
+}
+/// input = a raw roaring serialisation; the harness compresses it (zlib) and wraps it both ways.
+fn e_bitmap_roaring(b: &[u8]) -> Out {
+  e_bitmap_zlib(&zlib(b))
+}
+
+pub fn status_list_accessors(l: &StatusList2021) {
+  st("len");
+  let n = l.len();
+  st("get");
+  for i in [0usize, 1, 7, 8, n.wrapping_sub(1), n, n + 1, n + 8, usize::MAX / 8, usize::MAX] {
+    bb(l.get(i).is_ok());
+  }
+  st("set");
+  for i in [0usize, 7, n.wrapping_sub(1), n, usize::MAX] {
+    let mut c = l.clone();
+    bb(c.set(i, true).is_ok());
+    bb(c.set(i, false).is_ok());
+  }
+  st("Debug/Hash/Eq");
+  let mut h = DefaultHasher::new();
+  l.hash(&mut h);
+  bb((format!("{l:?}").len(), h.finish(), l.clone() == *l));
+  st("into_encoded_str");
+  let s = l.clone().into_encoded_str();
+  st("into_encoded_str>try_from_encoded_str");
+  bb(StatusList2021::try_from_encoded_str(&s).is_ok());
+}
+fn e_status_list_str(s: &str) -> Out {
+  match StatusList2021::try_from_encoded_str(s) {
+    Err(_) => "rej",
+    Ok(l) => {
+      status_list_accessors(&l);
+      if l.len() == 0 {
+        "accepted:empty-list"
+      } else {
+        "accepted"
+      }
+    }
+  }
+}
+/// input = a gzip stream (base64-encoded by the harness)
+fn e_status_list_gzip(b: &[u8]) -> Out {
+  e_status_list_str(&BaseEncoding::encode(b, Base::Base64))
+}
+
+fn e_from_json_slice(b: &[u8]) -> Out {
+  let mut acc = false;
+  acc |= CoreDocument::from_json_slice(b).is_ok();
+  acc |= IotaDocument::from_json_slice(b).is_ok();
+  acc |= identity_jose::jwk::Jwk::from_json_slice(b).is_ok();
+  acc |= Credential::<Object>::from_json_slice(b).is_ok();
+  acc |= identity_core::common::Timestamp::from_json_slice(b).map(|t| crate::strings::timestamp_accessors(&t)).is_ok();
+  acc |= identity_did::CoreDID::from_json_slice(b).map(|d| crate::strings::core_did_accessors(&d)).is_ok();
+  acc |= Url::from_json_slice(b).is_ok();
+  acc |= serde_json::from_slice::<identity_core::common::Value>(b).is_ok();
+  if acc {
+    "accepted"
+  } else {
+    "rej"
+  }
+}
+
+pub fn entries() -> Vec<Entry> {
+  vec![
+    eb("StateMetadataDocument::unpack", e_state_metadata_unpack),
+    eb("MethodDigest::unpack", e_method_digest_unpack),
+    es("RevocationBitmap::try_from(Service)[data-url payload]", e_bitmap_payload),
+    es("RevocationBitmap::try_from(Service)[endpoint url]", e_bitmap_endpoint),
+    eb("RevocationBitmap::try_from(Service)[zlib stream]", e_bitmap_zlib),
+    eb("RevocationBitmap::try_from(Service)[roaring bytes]", e_bitmap_roaring),
+    es("StatusList2021::try_from_encoded_str", e_status_list_str),
+    eb("StatusList2021::try_from_encoded_str[gzip stream]", e_status_list_gzip),
+    eb("FromJson::from_json_slice", e_from_json_slice),
+  ]
+}
+
+pub fn string_sweeps() -> Vec<Sweep> {
+  const A: &[&str] = &["A", "e", "J", "y", "z", "M", "H", "4", "s", "I", "-", "_", "+", "/", "=", "é"];
+  let empty_list = StatusList2021::try_from_encoded_str(&BaseEncoding::encode(&gzip(&[0u8; 4])[..], Base::Base64)).map(|l| l.into_encoded_str()).unwrap_or_default();
+  let cut = empty_list.len().saturating_sub(4);
+  vec![
+    sw("RevocationBitmap::try_from(Service)[data-url payload]", A, &[("", ""), ("eJy", ""), ("eJyzMmAAAwADKABr", ""), ("eJyzMmAAAwADKA", ""), ("eJyzMmBgYGQAAWYGATDNysDGwMEAAAscAJI", ""), ("ZUp5", "")], (4, 5)),
+    sw("RevocationBitmap::try_from(Service)[endpoint url]", &["d", "a", "t", ":", ";", ",", "/", "b", "6", "4", "e", "J", "y", "%", " ", "é"], &[("", ""), ("data:", ""), ("data:application/octet-stream;base64", ""), ("data:application/octet-stream;base64,", "")], (4, 5)),
+    sw("StatusList2021::try_from_encoded_str", A, &[("", ""), ("H4sI", ""), (&empty_list, ""), (&empty_list[..cut], "")], (4, 5)),
+  ]
+}
+
+// ------------------------------------------------------------------------------------------------ spaces
+fn run_bins(ctx: &Ctx, part: &str, entry: &'static str, inputs: &[Vec<u8>], detail: vx::Value) {
+  if !crate::only(entry) {
+    return;
+  }
+  let e = crate::entry(entry);
+  let chunks: Vec<&[Vec<u8>]> = inputs.chunks(512).collect();
+  let (n, _, _, acc) = crate::par_chunks(ctx, &chunks, |ch, local: &mut Local| {
+    for b in ch.iter() {
+      crate::run1(ctx, e, In::B(b), local, true);
+    }
+    (ch.len() as u64, ch.len() as u64)
+  });
+  if let Some(b) = inputs.get(inputs.len() / 3) {
+    if b.len() <= 4096 {
+      ctx.sample(part, &In::B(b).case(entry));
+    }
+  }
+  ctx.part(part, json!({"engine": "E1 full positional sweep", "entry": entry, "inputs": n, "accepted_or_panicked": acc, "detail": detail}));
+}
+
+/// Like `run_bins`, but the inputs of each item are generated on the fly (keeps large spaces out of memory).
+fn run_gen<T: Sync>(ctx: &Ctx, part: &str, entry: &'static str, items: &[T], gen: impl Fn(&T) -> Vec<Vec<u8>> + Sync, detail: vx::Value) {
+  if !crate::only(entry) {
+    return;
+  }
+  let e = crate::entry(entry);
+  let chunks: Vec<&[T]> = items.chunks(64).collect();
+  let (n, _, _, acc) = crate::par_chunks(ctx, &chunks, |ch, local: &mut Local| {
+    let mut n = 0u64;
+    for it in ch.iter() {
+      for b in gen(it) {
+        crate::run1(ctx, e, In::B(&b), local, true);
+        n += 1;
+      }
+    }
+    (n, n)
+  });
+  ctx.part(part, json!({"engine": "E1 full product", "entry": entry, "inputs": n, "accepted_or_panicked": acc, "detail": detail}));
+}
+
+/// header / length / truncation / bit-flip / byte-substitution space around one well-formed packed input
+fn positional_space(seed: &[u8], subst: &[u8], flips: bool) -> Vec<Vec<u8>> {
+  let mut v = Vec::new();
+  for k in 0..=seed.len() {
+    v.push(seed[..k].to_vec()); // every truncation
+  }
+  if flips {
+    for i in 0..seed.len() {
+      for bit in 0..8 {
+        let mut m = seed.to_vec();
+        m[i] ^= 1 << bit;
+        v.push(m);
+      }
+    }
+  }
+  for i in 0..seed.len() {
+    for s in subst {
+      if seed[i] != *s {
+        let mut m = seed.to_vec();
+        m[i] = *s;
+        v.push(m);
+      }
+    }
+  }
+  v
+}
+
+fn state_metadata_seeds() -> Vec<Vec<u8>> {
+  let rich = r##"{"doc":{"id":"did:0:0","controller":["did:0:0","did:iota:smr:0x71b709dff439f1ac9dd2b9c2e28db0807156b378e13bfa3605ce665aa0d0fdca"],"alsoKnownAs":["https://example.com/"],
+   "verificationMethod":[{"id":"did:0:0#k1","controller":"did:0:0","type":"JsonWebKey","publicKeyJwk":{"kty":"OKP","crv":"Ed25519","x":"11qYAYKxCrfVS_7TyWQHOg7hcvPapiMlrwIaaPcHURo"}},
+      {"id":"did:iota:smr:0x71b709dff439f1ac9dd2b9c2e28db0807156b378e13bfa3605ce665aa0d0fdca#f","controller":"did:0:0","type":"Ed25519VerificationKey2018","publicKeyMultibase":"zH3C2AVvLMv6gmMNam3uVAjZpfkcJCwDwnZn6z3wXmqPV"}],
+   "authentication":["did:0:0#k1"],"service":[{"id":"did:0:0#rev","type":"RevocationBitmap2022","serviceEndpoint":"data:application/octet-stream;base64,eJyzMmAAAwADKABr"}],"custom":1},
+   "meta":{"created":"2023-11-14T22:13:20Z","updated":"2023-11-14T22:13:20Z","deactivated":false,"x":[1]}}"##;
+  let minimal = r##"{"doc":{"id":"did:0:0"},"meta":{}}"##;
+  let mut out = Vec::new();
+  for j in [minimal, rich] {
+    let d = StateMetadataDocument::from_json(j).expect("seed state metadata document");
+    out.push(d.pack(StateMetadataEncoding::Json).expect("pack seed"));
+  }
+  out
+}
+
+/// Hand-built roaring serialisations: the full product of (cookie kind, declared size relation, per-container
+/// key, cardinality field, payload shape).
+fn roaring_streams(quick: bool) -> Vec<Vec<u8>> {
+  const NO_RUN: u32 = 12346;
+  const RUN: u16 = 12347;
+  #[derive(Clone, Copy)]
+  struct C {
+    key: u16,
+    card_field: u16,
+    shape: u8,
+    run: bool,
+  }
+  fn payload(c: &C) -> Vec<u8> {
+    let mut out = Vec::new();
+    if c.run {
+      // shape selects the interval list
+      let intervals: &[(u16, u16)] = match c.shape {
+        0 => &[(0, 0)],
+        1 => &[(0, 65535)],
+        2 => &[(65535, 1)],
+        3 => &[(5, 10), (3, 10)],
+        _ => &[],
+      };
+      let declared: u16 = if c.shape == 4 { 0xFFFF } else { intervals.len() as u16 };
+      out.extend(declared.to_le_bytes());
+      for (s, l) in intervals {
+        out.extend(s.to_le_bytes());
+        out.extend(l.to_le_bytes());
+      }
+      return out;
+    }
+    let card = c.card_field as usize + 1;
+    if card <= 4096 {
+      let vals: Vec<u16> = match c.shape {
+        0 | 3 => (0..card as u32).map(|i| i as u16).collect(),              // sorted (3: cut short below)
+        1 => (0..card as u32).rev().map(|i| i as u16).collect(),            // descending
+        2 => vec![7u16; card],                                               // duplicates
+        _ => vec![0xFFFFu16; card],                                          // all max
+      };
+      for v in vals {
+        out.extend(v.to_le_bytes());
+      }
+    } else {
+      let fill: u8 = match c.shape {
+        0 | 3 => 0xFF,
+        1 => 0x00, // cardinality field claims > 4096 entries, no bit set
+        2 => 0x01,
+        _ => 0x80,
+      };
+      out.extend(std::iter::repeat(fill).take(8192));
+    }
+    if c.shape == 3 {
+      let n = out.len().saturating_sub(2);
+      out.truncate(n);
+    }
+    out
+  }
+  let keys: &[u16] = if quick { &[0, 0xFFFF] } else { &[0, 1, 0xFFFF] };
+  let cards: &[u16] = if quick { &[0, 4095, 4096, 0xFFFF] } else { &[0, 1, 4095, 4096, 0xFFFF] };
+  let mut singles: Vec<C> = Vec::new();
+  for &key in keys {
+    for &card_field in cards {
+      for shape in 0..5u8 {
+        singles.push(C { key, card_field, shape, run: false });
+      }
+    }
+    for shape in 0..5u8 {
+      singles.push(C { key, card_field: 0, shape, run: true });
+    }
+  }
+  let mut lists: Vec<Vec<C>> = vec![vec![]];
+  for a in &singles {
+    lists.push(vec![*a]);
+  }
+  for a in &singles {
+    for b in &singles {
+      if quick && (a.shape > 1 || b.shape > 1) && a.card_field == b.card_field {
+        continue;
+      }
+      lists.push(vec![*a, *b]);
+    }
+  }
+  let mut out = Vec::new();
+  for cs in &lists {
+    let n = cs.len() as u32;
+    let any_run = cs.iter().any(|c| c.run);
+    // declared size relation
+    for declared in [n, n + 1, 0, 65536, 65537, u32::MAX] {
+      let mut s = Vec::new();
+      if any_run {
+        if declared == 0 || declared > 65536 {
+          continue;
+        }
+        let cookie: u32 = RUN as u32 | ((declared - 1) << 16);
+        s.extend(cookie.to_le_bytes());
+        let mut bm = vec![0u8; (declared as usize + 7) / 8];
+        for (i, c) in cs.iter().enumerate() {
+          if c.run && i / 8 < bm.len() {
+            bm[i / 8] |= 1 << (i % 8);
+          }
+        }
+        s.extend(&bm);
+      } else {
+        s.extend(NO_RUN.to_le_bytes());
+        s.extend(declared.to_le_bytes());
+      }
+      for c in cs {
+        s.extend(c.key.to_le_bytes());
+        s.extend(c.card_field.to_le_bytes());
+      }
+      if !any_run || declared >= 4 {
+        // offsets (ignored by the decoder, must be present)
+        for _ in 0..cs.len() {
+          s.extend(0u32.to_le_bytes());
+        }
+      }
+      for c in cs {
+        s.extend(payload(c));
+      }
+      out.push(s);
+    }
+  }
+  // unknown cookies / tiny inputs
+  for c in [0u32, 12345, 12348, 0x3039_0000, u32::MAX] {
+    out.push(c.to_le_bytes().to_vec());
+  }
+  for n in 0..4 {
+    out.push(vec![0x3A; n]);
+  }
+  out
+}
+
+pub fn generate(ctx: &Ctx) {
+  let quick = ctx.quick();
+  // ------------------------------------------------------------ StateMetadataDocument::unpack
+  let seeds = state_metadata_seeds();
+  let subst: &[u8] = &[0x00, b'"', b'{', b'}', b'[', b']', b',', b':', b'\\', b'0', b'-', 0x80, 0xFF, b' ', b'e', b'%'];
+  let mut inputs: Vec<Vec<u8>> = Vec::new();
+  for seed in &seeds {
+    // every value of each of the 7 header bytes
+    for pos in 0..7 {
+      for v in 0..=255u8 {
+        let mut m = seed.clone();
+        m[pos] = v;
+        inputs.push(m);
+      }
+    }
+    // every length prefix x body relation (all 65 536 lengths in thorough; quick: every length up to body+64, every
+    // power of two +-1, the last 64)
+    let body = &seed[7..];
+    let lens: Vec<u32> = if quick {
+      let mut l: Vec<u32> = (0..=(body.len() as u32 + 64)).collect();
+      for k in 0..16 {
+        for d in [-1i64, 0, 1] {
+          let x = (1i64 << k) + d;
+          if (0..=65535).contains(&x) {
+            l.push(x as u32);
+          }
+        }
+      }
+      l.extend(65472..=65535);
+      l.sort();
+      l.dedup();
+      l
+    } else {
+      (0..=65535).collect()
+    };
+    let mut long = body.to_vec();
+    long.extend_from_slice(b"}} trailing \xff\x00");
+    let half = body[..body.len() / 2].to_vec();
+    let head = seed[..5].to_vec();
+    run_gen(
+      ctx,
+      "binary: StateMetadataDocument::unpack length prefixes",
+      "StateMetadataDocument::unpack",
+      &lens,
+      |len| {
+        let bodies: [&[u8]; 4] = [body, &half, &long, &[]];
+        bodies
+          .iter()
+          .map(|b| {
+            let mut m = head.clone();
+            m.extend((*len as u16).to_le_bytes());
+            m.extend_from_slice(b);
+            m
+          })
+          .collect()
+      },
+      json!({"seed_len": seed.len(), "length_prefixes": lens.len(), "bodies": "seed body / first half / body + trailing bytes / empty"}),
+    );
+    inputs.extend(positional_space(seed, subst, true));
+  }
+  // a body padded so that the JSON is exactly 65 535 bytes, with every header relation around it
+  {
+    let pad = "x".repeat(65535 - r##"{"doc":{"id":"did:0:0","p":""},"meta":{}}"##.len());
+    let j = format!(r##"{{"doc":{{"id":"did:0:0","p":"{pad}"}},"meta":{{}}}}"##);
+    for len in [65534u16, 65535] {
+      let mut m = b"DID\x01\x00".to_vec();
+      m.extend(len.to_le_bytes());
+      m.extend_from_slice(j.as_bytes());
+      inputs.push(m);
+    }
+  }
+  run_bins(ctx, "binary: StateMetadataDocument::unpack", "StateMetadataDocument::unpack", &inputs, json!({"seeds": seeds.len(), "seed_lens": seeds.iter().map(|s| s.len()).collect::<Vec<_>>(), "header_bytes": "7 x 256", "length_prefixes": if quick {"0..=body+64, 2^k±1, 65472..=65535"} else {"all 65536"}, "bodies": 4, "bit_flips": "every bit", "substitution_bytes": subst.len()}));
+  ctx.bound("state_metadata_length_prefixes", if quick { "boundary set" } else { "all 65536" });
+
+  // ------------------------------------------------------------ MethodDigest::unpack
+  let mut inputs = Vec::new();
+  for len in 0..=12usize {
+    for version in 0..=255u8 {
+      for fill in [0x00u8, 0xFF, 0xA5] {
+        let mut v = vec![fill; len];
+        if len > 0 {
+          v[0] = version;
+        }
+        inputs.push(v);
+      }
+    }
+  }
+  run_bins(ctx, "binary: MethodDigest::unpack", "MethodDigest::unpack", &inputs, json!({"lengths": "0..=12", "version_bytes": 256, "fills": 3}));
+
+  // ------------------------------------------------------------ RevocationBitmap: compressed seed streams
+  let seed_sets: Vec<Vec<u32>> = vec![vec![], vec![0, 5, 6, 8], vec![42, 420, 4200, 42000], vec![5, 398, 67000], (0..16).collect(), (0..5000).step_by(1).collect(), vec![0, 65536, 131072, u32::MAX]];
+  let mut zstreams: Vec<Vec<u8>> = Vec::new();
+  for set in &seed_sets {
+    let mut bm = RevocationBitmap::new();
+    for i in set {
+      bm.revoke(*i);
+    }
+    let svc = bm.to_service(REV_ID.clone()).expect("seed bitmap service");
+    let url = match svc.service_endpoint() {
+      identity_document::service::ServiceEndpoint::One(u) => u.to_string(),
+      _ => unreachable!(),
+    };
+    let payload = url.strip_prefix(DATA_URL).expect("data url").to_string();
+    let z = BaseEncoding::decode(&payload, Base::Base64Url).expect("seed payload is base64url");
+    zstreams.push(z);
+  }
+  let mut inputs = Vec::new();
+  for z in &zstreams {
+    if z.len() > 200 && quick {
+      // long stream: truncations + flips of the first and last 48 bytes only (quick)
+      for k in 0..=z.len() {
+        inputs.push(z[..k].to_vec());
+      }
+      for i in (0..48).chain(z.len() - 48..z.len()) {
+        for bit in 0..8 {
+          let mut m = z.clone();
+          m[i] ^= 1 << bit;
+          inputs.push(m);
+        }
+      }
+      ctx.cap_hit("quick tier: bit flips of the 5000-entry bitmap stream restricted to its first and last 48 bytes (complete in thorough)");
+    } else {
+      inputs.extend(positional_space(z, &[0x00, 0xFF, 0x78, 0x9C], true));
+    }
+  }
+  run_bins(ctx, "binary: RevocationBitmap zlib streams", "RevocationBitmap::try_from(Service)[zlib stream]", &inputs, json!({"seed_streams": zstreams.len(), "stream_lens": zstreams.iter().map(|z| z.len()).collect::<Vec<_>>(), "space": "every truncation, every single-bit flip, 4 substitution bytes at every position; each wrapped as Base64Url and as legacy Base64(Base64Url)"}));
+
+  // ------------------------------------------------------------ RevocationBitmap: hand-built roaring serialisations
+  let mut inputs = roaring_streams(quick);
+  // + every truncation / bit flip of two genuine serialisations
+  for set in [vec![0u32, 5, 6, 8], vec![1, 65536, 65537, 4_000_000_000]] {
+    let mut r = roaring::RoaringBitmap::new();
+    for i in set {
+      r.insert(i);
+    }
+    let mut raw = Vec::new();
+    r.serialize_into(&mut raw).expect("serialize");
+    inputs.extend(positional_space(&raw, &[0x00, 0xFF, 0x3A, 0x3B, 0x30], true));
+  }
+  run_bins(ctx, "binary: RevocationBitmap hand-built roaring", "RevocationBitmap::try_from(Service)[roaring bytes]", &inputs, json!({"product": "cookie kind x declared-size relation {n,n+1,0,65536,65537,u32::MAX} x <=2 containers x key x cardinality field x payload shape (sorted/descending/duplicates/short/max; run: 5 interval lists)", "streams": inputs.len()}));
+
+  // ------------------------------------------------------------ StatusList2021: compressed seed streams
+  let mut gz: Vec<Vec<u8>> = Vec::new();
+  gz.push(gzip(&[]));
+  gz.push(gzip(&[0xA5, 0x00, 0xFF]));
+  gz.push(BaseEncoding::decode(&StatusList2021::default().into_encoded_str(), Base::Base64).expect("seed list"));
+  {
+    let mut l = StatusList2021::default();
+    for i in [0usize, 42, 420, 4200, 131071] {
+      l.set(i, true).unwrap();
+    }
+    gz.push(BaseEncoding::decode(&l.into_encoded_str(), Base::Base64).expect("seed list"));
+  }
+  let mut inputs = Vec::new();
+  for g in &gz {
+    inputs.extend(positional_space(g, &[0x00, 0xFF, 0x1F, 0x8B, 0x08], true));
+  }
+  // every value of the 10 fixed gzip header bytes, every FLG bit combination with a short tail
+  for pos in 0..10 {
+    for v in 0..=255u8 {
+      let mut m = gz[1].clone();
+      m[pos] = v;
+      inputs.push(m);
+    }
+  }
+  run_bins(ctx, "binary: StatusList2021 gzip streams", "StatusList2021::try_from_encoded_str[gzip stream]", &inputs, json!({"seed_streams": gz.len(), "stream_lens": gz.iter().map(|z| z.len()).collect::<Vec<_>>(), "space": "every truncation, every single-bit flip, 5 substitution bytes at every position, every value of each gzip header byte"}));
+
+  // ------------------------------------------------------------ from_json_slice on raw bytes
+  let alpha: &[u8] = &[b'"', b'{', b'}', b'[', b']', b':', b',', b'\\', b'u', b'0', b'-', b'e', b'.', b't', b'n', 0x00, 0x7F, 0x80, 0xC3, 0xA9, 0xED, 0xA0, 0xF4, 0xFF];
+  let mut inputs: Vec<Vec<u8>> = vec![vec![]];
+  for a in 0..=255u8 {
+    inputs.push(vec![a]);
+    for b in 0..=255u8 {
+      inputs.push(vec![a, b]);
+    }
+  }
+  let maxlen = ctx.by_tier(3, 4);
+  let mut cur: Vec<Vec<u8>> = vec![vec![]];
+  for len in 1..=maxlen {
+    let mut next = Vec::new();
+    for p in &cur {
+      for a in alpha {
+        let mut q = p.clone();
+        q.push(*a);
+        next.push(q);
+      }
+    }
+    if len >= 3 {
+      inputs.extend(next.iter().cloned());
+    }
+    cur = next;
+  }
+  // string literals: '"' + body + '"' for every 2-byte body (UTF-8 validity inside a JSON string)
+  for a in 0..=255u8 {
+    for b in 0..=255u8 {
+      inputs.push(vec![b'"', a, b, b'"']);
+    }
+  }
+  run_bins(ctx, "binary: from_json_slice raw bytes", "FromJson::from_json_slice", &inputs, json!({"space": "all byte strings of length <= 2; all strings over a 24-byte JSON/UTF-8 alphabet up to the tier length; every 2-byte body inside a JSON string literal", "max_len": maxlen}));
+}
